@@ -1,5 +1,6 @@
 CONSTANTS
-  Descs = {1, 2, 3, 4}
+  Descs = {1, 2, 3, 4, 5, 6, 8}
+  ExportDescs = {5, 6, 8}
   PVariant = "asis"
 SPECIFICATION MCSpec
 INVARIANT TypeOK
@@ -9,4 +10,6 @@ PROPERTY UnforcedRenderKeeps
 PROPERTY RenderedFromCurrentConfig
 PROPERTY InitNeverOverwrites
 PROPERTY PatchLeavesSources
+PROPERTY SecondInitIsInert
+PROPERTY PlainExportKeeps
 CHECK_DEADLOCK FALSE
